@@ -23,7 +23,7 @@ EXPLANATION = (
     "R09b: decision tables of preferred_and_killable / indices_contain_equal_information over all 81 (space,spin)^2 "
     "inputs: a returned pair consists of the two indices with info(kept) >= info(removed), None is returned only "
     "for incomparable information, equal information is equality of space and spin. "
-    "R09c: for every scenario (single deltas, chains, spectators, numeric prefactors, sums, non-products; both "
+    "R09c: for every scenario (single deltas, chains and stars of up to three deltas, a contracted index shared by two deltas whose partners are targets, spectators, numeric prefactors, sums, non-products; both "
     "argument orders of every delta, both factor orders; targets by the summation convention = indices on exactly "
     "one factor, or explicit as Index list / name string) within the precondition of the property (every contracted "
     "index sits on a non-delta factor) the returned expression has the same polynomial value for every assignment "
@@ -33,7 +33,7 @@ EXPLANATION = (
 ASSUMPTIONS = [
     "sympy's subs/xreplace replace every occurrence of the removed index; Mul/Add rebuild as modelled (delta of "
     "identical indices = 1, of incompatible indices = 0, equal deltas merge, single factor products collapse)",
-    "scenarios are bounded: at most 4 indices and 2 deltas per term, orbital model with 2 orbitals per class; "
+    "scenarios are bounded: at most 4 indices and 3 deltas per term, orbital model with 2 orbitals per class; "
     "equality of the polynomial values on this model stands for equality of the expressions",
     "deltas keep the argument order produced by the substitution (sympy would re-sort them canonically); the "
     "property is required for both orders",
@@ -470,12 +470,21 @@ TEMPLATES = {
     "d(x,y) d(y,z) X(x) Y(y) Z(z)": (3, [("d", 0, 1), ("d", 1, 2), ("t", "X", (0,)), ("t", "Y", (1,)), ("t", "Z", (2,))]),
     "d(x,y) d(y,z) X(x) Z(z)": (3, [("d", 0, 1), ("d", 1, 2), ("t", "X", (0,)), ("t", "Z", (2,))]),
     "d(x,y) X(x) Y(y) Z(z)": (3, [("d", 0, 1), ("t", "X", (0,)), ("t", "Y", (1,)), ("t", "Z", (2,))]),
+    # one contracted index on two deltas whose partners are targets by the convention (a former target that is
+    # substituted into the term then sits on two objects: targets must not be re-determined after a substitution)
+    "d(x,y) d(x,z) X(x)": (3, [("d", 0, 1), ("d", 0, 2), ("t", "X", (0,))]),
+    "d(x,y) d(x,z) X(x) Y(x)": (3, [("d", 0, 1), ("d", 0, 2), ("t", "X", (0,)), ("t", "Y", (0,))]),
+    "d(x,y) d(x,z) X(x) Y(y)": (3, [("d", 0, 1), ("d", 0, 2), ("t", "X", (0,)), ("t", "Y", (1,))]),
+    "d(x,y) d(x,z) X(x) Y(y) Z(z)": (3, [("d", 0, 1), ("d", 0, 2), ("t", "X", (0,)), ("t", "Y", (1,)), ("t", "Z", (2,))]),
+    "d(x,y) d(y,z) d(z,w) X(y) Y(z)": (4, [("d", 0, 1), ("d", 1, 2), ("d", 2, 3), ("t", "X", (1,)), ("t", "Y", (2,))]),
+    "d(x,y) d(x,z) d(x,w) X(x)": (4, [("d", 0, 1), ("d", 0, 2), ("d", 0, 3), ("t", "X", (0,))]),
     "d(x,y) d(z,w) X(x,z) Y(y) Z(w)": (4, [("d", 0, 1), ("d", 2, 3), ("t", "X", (0, 2)), ("t", "Y", (1,)), ("t", "Z", (3,))]),
     "d(x,y) d(z,w) X(x) Y(z)": (4, [("d", 0, 1), ("d", 2, 3), ("t", "X", (0,)), ("t", "Y", (2,))]),
 }
 SUMS = {
     "d(x,z) d(y,z) X(x) Y(y) + d(x,z) W(x,y,y)": (3, [[("d", 0, 2), ("d", 1, 2), ("t", "X", (0,)), ("t", "Y", (1,))],
                                                       [("d", 0, 2), ("t", "W", (0, 1, 1))]]),
+    "d(x,y) d(x,z) X(x) + V(y,z)": (3, [[("d", 0, 1), ("d", 0, 2), ("t", "X", (0,))], [("t", "V", (1, 2))]]),
     "d(x,y) X(x) + 3 V(y)": (2, [[("d", 0, 1), ("t", "X", (0,))], [("n", 3), ("t", "V", (1,))]]),
 }
 NAMES = {"occ": "ijkl", "virt": "abcd", "general": "pqrs"}
@@ -529,9 +538,10 @@ def scenarios(tier):
     Candidates: template x (space, spin) assignment x argument order of every delta x factor order x target mode
     (summation convention, every subset of the indices as Index list, and as name string when spin-less), restricted
     to the precondition of the property.  2-index templates run over all 81 assignments, 3-index ones over all 729
-    (thorough) or QUICK3, 4-index ones over QUICK3 (thorough) or QUICK4.  Always evaluated: the all-(occ, no spin)
-    assignment and the 2-index templates in the given factor order, with convention / Index-list targets; of the
-    rest a deterministic hash sample per template (quick: about 150, thorough: about 2500)."""
+    (thorough) or QUICK3, 4-index ones over QUICK3 (thorough) or QUICK4.  Always evaluated (never sampled): every
+    template under the all-(occ, no spin) assignment with every delta/factor order and every target mode, and the
+    2-index templates in the given factor order with convention / Index-list targets; of the rest a deterministic
+    hash sample per template (quick: about 100, thorough: about 2500)."""
     full = tier == "thorough"
     for name, (n, spec) in list(TEMPLATES.items()) + list(SUMS.items()):
         is_sum = name in SUMS
@@ -567,13 +577,13 @@ def scenarios(tier):
                 r = targets_of(alg, idx, e, mode)
                 if r is not None and precondition(alg, e, r[0]):
                     cands.extend((types, v, mode) for v in variants)
-        goal = (2500 if full else 40 if name in TRIVIAL else 150)
+        goal = (2500 if full else 40 if name in TRIVIAL else 100)
         p = min(1.0, goal / max(1, len(cands)))
         for k, (types, (flip, rev), mode) in enumerate(cands):
             plain = mode == "sum" or mode[0] == "list"
-            # never sampled: the all-(occ, no spin) assignment (control flow: chains, restarts, target passing) and
-            # the 2-index templates in their given factor order (information handling)
-            always = plain and name not in TRIVIAL and (all(t == ("occ", "") for t in types) or (n == 2 and not rev))
+            # never sampled: the all-(occ, no spin) assignment in every order and target mode (control flow: chains,
+            # restarts, target passing) and the 2-index templates in their given factor order (information handling)
+            always = name not in TRIVIAL and (all(t == ("occ", "") for t in types) or (plain and n == 2 and not rev))
             u = ((k + 1) * 2654435761 % 4294967296) / 4294967296
             if not always and u >= p:
                 continue
